@@ -6,6 +6,7 @@ CONSTANTS
   PatchKinds = {"plain2", "loop", "fwd"}
   FnLayouts = {"none", "one"}
   EndSyms = {TRUE, FALSE}
+  NoSyms = {TRUE, FALSE}
   AnnModes = {"none"}
   WithProxyDel = TRUE
   CfiLayouts = {"none"}
